@@ -1,20 +1,22 @@
 #!/bin/bash
 # usage: keep_seed.sh <seed e.g. C03-1> <prop> ["note"] — copies a confirmed seed into /verif/seeded/<seed>/ and records how the checks fare on it
-S=$1; P=$2; NOTE=${3:-}
+S=$1; P=$2; export NOTE=${3:-}
 mkdir -p /verif/seeded/$S
 cp /tmp/seeds/$S/patch.diff /tmp/seeds/$S/meta.json /tmp/seeds/$S/confirm.log /verif/seeded/$S/ 2>/dev/null
 cp /tmp/seeds/$S/*_test.go /tmp/seeds/$S/demo.sh /verif/seeded/$S/ 2>/dev/null
-OUT=$(/verif/try_seed.sh /verif/seeded/$S $P quick 2>&1)
-echo "$OUT" | grep "^  rule=" | cut -c1-300 > /verif/seeded/$S/check_output.txt
+OUT=$(LINES_OUT=400 /verif/try_seed.sh /verif/seeded/$S $P quick 2>&1)
+echo "$OUT" | grep "^  rule=\|^VIOLATION\|^NOTE\|^NEW-VIOL" | cut -c1-300 > /verif/seeded/$S/check_output.txt
 echo "$OUT" | tail -2 >> /verif/seeded/$S/check_output.txt
-N=$(echo "$OUT" | grep -c "^VIOLATION")
-python3 - <<PY
-import json
-m=json.load(open('/verif/seeded/$S/meta.json'))
-log=open('/verif/seeded/$S/confirm.log').read()
-m['confirmed_by_me']={'suite_ok':'SUITE_OK' in log,'demo_fails_with_change':('--- FAIL' in log.split('== demo with the change')[1].split('== build')[0]) or 'demo exit with change: 1' in log,
-  'demo_passes_without_change':'--- FAIL' not in log.split('== demo without the change')[1].split('== apply')[0], 'how':'confirm_seed.sh in a fresh scratch worktree of the pinned commit (log: confirm.log)'}
-m['check']={'property':'$P','violations_reported':$N,'detected':$N>0,'note':'$NOTE'}
-json.dump(m,open('/verif/seeded/$S/meta.json','w'),indent=1)
-print('$S', m['confirmed_by_me'], m['check'])
+if echo "$OUT" | grep -q "^NEW-VIOLATIONS"; then N=$(echo "$OUT" | grep "^NEW-VIOLATIONS" | awk '{print $2}'); else N=$(echo "$OUT" | grep -c "^VIOLATION"); fi
+export S P N
+python3 - <<'PY'
+import json,os
+S,P,N,NOTE=os.environ['S'],os.environ['P'],int(os.environ['N']),os.environ['NOTE']
+m=json.load(open(f'/verif/seeded/{S}/meta.json'))
+log=open(f'/verif/seeded/{S}/confirm.log').read()
+m['confirmed_by_me']={'suite_ok':'SUITE_OK' in log,'demo_fails_with_change':('FAIL' in log.split('== demo with the change')[1].split('== build')[0]) or 'demo exit with change: 1' in log,
+  'demo_passes_without_change':'FAIL' not in log.split('== demo without the change')[1].split('== apply')[0], 'how':'confirm_seed.sh in a fresh scratch worktree of the pinned commit (log: confirm.log)'}
+m['check']={'property':P,'violations_reported':N,'detected':N>0,'note':NOTE}
+json.dump(m,open(f'/verif/seeded/{S}/meta.json','w'),indent=1)
+print(S, m['confirmed_by_me'], m['check'])
 PY
